@@ -305,4 +305,29 @@ example : ∃ x y, pjX toyG = .ok x ∧ pjY toyG = .ok y := by
   obtain ⟨x, y, ex, ey, _⟩ := xy_canonical hg
   exact ⟨x, y, ex, ey⟩
 
+
+/-- the same toy point as a legacy affine `Point` value -/
+example : ∃ g, AffRep 11 1 6 ⊤ ⟨toyC, 2, 7, none⟩ g ∧
+    (∃ R, affDouble ⟨toyC, 2, 7, none⟩ = .ok R ∧ PtRep 11 1 6 ⊤ R (g + g)) ∧
+    (∃ N, affNeg ⟨toyC, 2, 7, none⟩ = .ok N ∧ AffRep 11 1 6 ⊤ N (-g)) := by
+  obtain ⟨g, hg⟩ := toyG_rep
+  obtain ⟨A, e, hA, _⟩ := to_affine_correct hg
+  have eA : A = ⟨toyC, 2, 7, none⟩ := by
+    have : pjToAffine toyG = .ok (.aff ⟨toyC, 2, 7, none⟩) := by decide
+    rw [this] at e; cases e; rfl
+  subst eA
+  obtain ⟨N, eN, hN, _⟩ := legacy_neg_correct_partial toy_n2t hA
+  exact ⟨g, hA, legacy_double_correct_partial (by decide) toy_n2t hA, N, eN, hN⟩
+
+/-- `==` between two scalings of the same point, and representation independence, instantiated -/
+example : ∃ g, PJRep 11 1 6 ⊤ toyG g ∧ PJRep 11 1 6 ⊤ ⟨toyC, 8, 1, 2, none, false⟩ g := by
+  obtain ⟨g, hg⟩ := toyG_rep
+  refine ⟨g, hg, ?_⟩
+  have h := good_smul hg.2.2 (u := ((2 : ℤ) : ZMod 11)) (by decide)
+  refine ⟨toyC_on, ⟨⟨by decide, by decide⟩, ⟨by decide, by decide⟩, ⟨by decide, by decide⟩⟩, ?_⟩
+  convert h using 2
+  simp only [toyG, cast3_mk, Matrix.cons_val_zero, Matrix.cons_val_one, Matrix.cons_val_two, Matrix.head_cons,
+    Matrix.tail_cons]
+  decide
+
 end C06
